@@ -79,6 +79,11 @@ def cells(tier):
     for perm in ([0, 1, 2], [2, 1, 0], [1, 2, 0]):
         out.append(mk(PID, ('roStoryInsert', 'roStoryAppend'), False, 'string', perm=perm, T=T, mids=['5', '10'], refs=['n1', 0],
                       may_fail=False, tag='target-created-later'))
+    # ... also when a roDelete or a failing message is numbered before it
+    for perm in ([0, 1, 2], [2, 1, 0], [1, 2, 0]):
+        out.append(mk(PID, ('roDelete', 'roReplace'), False, 'string', perm=perm, T=T, mids=['9', '10'], may_fail=False, tag='roDelete-before-roReplace'))
+    out.append(mk(PID, ('roStoryMove', 'roReplace', 'roStoryAppend'), False, 'string', perm=[3, 2, 1, 0], T=T, mids=['9', '10', '100'],
+                  tag='failing-message-before-roReplace'))
     # a roReplace is ordered by its message ID like everything else
     for perm in ([3, 2, 1, 0], [1, 3, 0, 2], [0, 1, 2, 3]):
         out.append(mk(PID, ('roMetadataReplace', 'roReplace', 'roMetadataReplace'), True, 'string', perm=perm,
